@@ -17,6 +17,9 @@ CHECKS = {
             "PConnectOutcome (declarative refusal / acceptance / dynamic-id rule), UniqueIds, InfoHonest checked by TLC on all connect/disconnect histories of the bound; the 16^3 request-class matrix and TLC behaviours are executed on the real manager and validated by TLC (ACK address, CLIENT_INFO content, refusal closes only the requester).", "DESIGN.md 3/C06", HUB_NOTE),
     "C07": ("model_checking", "TLC model checking (Identity, Routing, Failures) + leave-and-reuse matrix + trace validation of CLIENT_CLOSED notices, closures and survivor deliveries",
             "NoTrace / exactly-one CLIENT_CLOSED / reusable id+name are action properties checked by TLC for every way of leaving within the bound; every departure way x protocol stage is executed on the real manager, followed by an immediate reconnect with the same identity and a probe publish, and validated by TLC.", "DESIGN.md 3/C07", HUB_NOTE),
+    "C08": ("model_checking", "TLC model checking of ClientRead.tla (ReadOp over frame-class streams, cuts, subscription changes) + TLC-generated behaviours executed with a real Client on a scripted socket + TLC trace validation of every read_message call",
+            "NeverUnsubscribed, ErrorConsumesOffender, InOrder, LossReported, NoSilentLoss are invariants checked by TLC over all streams of the bound; on the real Client each call's result is compared byte-for-byte with the frame that was put on the wire (header except recv_time, payload), the exception class, the connected flag and the exact set of whole frames left unread, under several segment sizes and both header layouts.", "DESIGN.md 3/C08",
+            "Trusted base: TLC, ClientRead.tla, vf/readdrv.py scripted socket (MSG_WAITALL short read on FIN, ConnectionResetError on RST, segmented non-WAITALL reads). Reads that would block forever are excluded."),
     "C14": ("model_checking", "TLC model checking (Routing, Failures: every writable subset, up to two dead peers) + replay with scripted select / failing writes + trace validation of FAILED_MESSAGE notices",
             "FailureReported, LoggerWaitedFor, NoNoticeForNotices checked by TLC for every readiness schedule in the bound; the harness makes select report exactly the chosen writable set and makes chosen writes fail on the real manager; TLC validates notice content, recipients and that the others still got the message.", "DESIGN.md 3/C14", HUB_NOTE),
     "C19": ("model_checking", "TLC model checking of the four ACK clauses (Routing, Identity) + replay + trace validation of ACK frames on every connection incl. loggers",
